@@ -53,7 +53,7 @@ class AAAnswer(DiameterAnswer):
                     "session_timeout": SessionTimeoutAVP,
                     "apn_configuration": ApnConfigurationAVP,
                     #"qos_resources": QosResourcesAVP,
-                    #"an_trusted": AnTrustedAVP,
+                    "an_trusted": AnTrustedAVP,
                     "redirect_host": RedirectHostAVP,
                     #"trace_info": TraceInfoAVP,
                     #"oc_supported_features": OcSupportedFeaturesAVP,
